@@ -9,6 +9,9 @@ use i_tree::map::sort::MapCollection;
 use i_tree::map::tree::MapTree;
 use i_tree::set::sort::{KeyValue, SetCollection};
 use i_tree::set::tree::SetTree;
+use i_tree::seg::exp::{SegExpCollection, SegRange};
+use i_tree::seg::tree::SegExpTree;
+use i_tree::ExpiredVal;
 use i_tree::{ExpiredKey, EMPTY_REF};
 use std::cell::RefCell;
 use std::cmp::Ordering;
@@ -545,6 +548,124 @@ fn run_ms<T: MS>(tr: &mut T, ops: &[(String, HashMap<String, i64>)], out: &mut O
     }
 }
 
+// ------------------------------------------------------------------------------------------------ segment tree
+#[derive(Clone, Copy, Debug)]
+struct SVal {
+    id: u8,
+    exp: u8,
+}
+impl ExpiredVal<u8> for SVal {
+    fn expiration(&self) -> u8 {
+        callback_tick();
+        self.exp
+    }
+}
+
+fn run_seg(lo: i32, hi: i32, ops: &[(String, HashMap<String, i64>)], out: &mut Out) {
+    let mut t: SegExpTree<i32, u8, SVal> = match SegExpTree::new(SegRange { min: lo, max: hi }) {
+        Some(t) => t,
+        None => {
+            out.mismatch(0, "C14:builds", "construction failed".into());
+            return;
+        }
+    };
+    let span = (hi as i64 - lo as i64 + 1) as u64;
+    let scale = (64 - (span - 1).leading_zeros()).saturating_sub(5);
+    let bucket = |x: i64| ((x - lo as i64) >> scale) as i64;
+    let mut vals: Vec<(u8, u8, i64, i64)> = vec![]; // id, exp, a, b
+    for (i, (name, a)) in ops.iter().enumerate() {
+        begin(i, name);
+        let g = |k: &str| *a.get(k).unwrap_or(&0);
+        match name.as_str() {
+            "insert" => {
+                t.insert_by_range(SegRange { min: g("a") as i32, max: g("b") as i32 }, SVal { id: g("id") as u8, exp: g("exp") as u8 });
+                vals.push((g("id") as u8, g("exp") as u8, g("a"), g("b")));
+                #[cfg(ishape_rust_itree_verif)]
+                {
+                    let mut n = 0;
+                    for j in 0..t.verif_places() {
+                        n += t.verif_copies_at(j).iter().filter(|c| c.0.id == g("id") as u8).count();
+                    }
+                    if n == 0 || n > 8 {
+                        out.mismatch(i, "C15:at-most-8-copies", format!("{} copies", n));
+                    }
+                }
+            }
+            "clear" => {
+                t.clear();
+                vals.clear();
+                #[cfg(ishape_rust_itree_verif)]
+                for j in 0..t.verif_places() {
+                    if !t.verif_copies_at(j).is_empty() {
+                        out.mismatch(i, "C12:clear-empties-every-place", format!("place {} not empty", j));
+                        break;
+                    }
+                }
+            }
+            "query" => {
+                let (c, d, time) = (g("c"), g("d"), g("time") as u8);
+                let consume = g("consume");
+                let full = consume >= 255 || g("full") == 1;
+                let mut got: Vec<SVal> = vec![];
+                {
+                    let mut it = t.iter_by_range(SegRange { min: c as i32, max: d as i32 }, time);
+                    let mut n = 0i64;
+                    loop {
+                        if !full && n >= consume {
+                            break;
+                        }
+                        match it.next() {
+                            Some(v) => got.push(v),
+                            None => break,
+                        }
+                        n += 1;
+                        if n > 1000 {
+                            out.mismatch(i, "C10:hang", "iterator does not terminate".into());
+                            break;
+                        }
+                    }
+                }
+                for v in &vals {
+                    let want = v.1 >= time && bucket(v.2) <= bucket(d) && bucket(c) <= bucket(v.3);
+                    let cnt = got.iter().filter(|x| x.id == v.0).count();
+                    if full && cnt != want as usize {
+                        out.mismatch(i, "C03:each-live-overlapping-value-exactly-once", format!("value {} yielded {} times, expected {}", v.0, cnt, want as usize));
+                    }
+                    if !full && cnt > want as usize {
+                        out.mismatch(i, "C03:partial-consumption-is-duplicate-free-subset", format!("value {} yielded {} times, expected at most {}", v.0, cnt, want as usize));
+                    }
+                }
+                if got.iter().any(|x| !vals.iter().any(|v| v.0 == x.id)) {
+                    out.mismatch(i, "C03:yields-nothing-else", "unknown value".into());
+                }
+                #[cfg(ishape_rust_itree_verif)]
+                if full && c == lo as i64 && d == hi as i64 {
+                    for j in 0..t.verif_places() {
+                        for cp in t.verif_copies_at(j) {
+                            if cp.0.exp < time {
+                                out.mismatch(i, "C16:no-expired-copy-left-after-whole-domain-query", format!("place {} keeps value {} exp {} at time {}", j, cp.0.id, cp.0.exp, time));
+                            }
+                        }
+                    }
+                    for v in &vals {
+                        if v.1 >= time {
+                            let m = t.verif_place_mask(v.2, v.3);
+                            let mut n = 0;
+                            for j in 0..t.verif_places() {
+                                n += t.verif_copies_at(j).iter().filter(|c| c.0.id == v.0).count();
+                            }
+                            if n as u32 != m.count_ones() {
+                                out.mismatch(i, "C16:unexpired-copies-kept", format!("value {} has {} copies, mask has {}", v.0, n, m.count_ones()));
+                            }
+                        }
+                    }
+                }
+            }
+            other => panic!("unknown seg op {}", other),
+        }
+    }
+}
+
 // ------------------------------------------------------------------------------------------------ reachability search
 // Given the canonical form of a tree state found by the solver (pre-state of an inductive step), search breadth-first over
 // public-API histories (inserts / deletes / lazy-expiry queries over a small universe of entries) for one that builds a state
@@ -763,6 +884,12 @@ fn main() {
         "set" => {
             let mut t: SetTree<u8, Item> = SetTree::new(cap);
             run_ms(&mut t, &ops, &mut out)
+        }
+        "seg" => {
+            // `capacity` carries lo, the first pseudo-op `domain lo=.. hi=..` carries the domain
+            let lo = *ops[0].1.get("lo").unwrap() as i32;
+            let hi = *ops[0].1.get("hi").unwrap() as i32;
+            run_seg(lo, hi, &ops[1..], &mut out)
         }
         k => panic!("unknown kind {}", k),
     }));
